@@ -71,6 +71,8 @@ with a signature other than the known ones above):
        (history:limit-exceeded:limit>0, needs limit 3 in the table: added); reverse+since 0 accepted
        (history:reverse-since-zero-accepted); since epoch dropped by handleHistory (history:differs-from-node:code);
        presence stats served from a cache (presence_stats:differs-from-node).
+       Single flight: key without the reverse flag (singleflight:merged-different-options:reverse:*); a key without the
+       meta TTL merges requests whose replies are equal: reported as drift (exit 2), not as a violation.
   C36  caught: never-ponged clients exempt from the pong check (no-pong:not-closed); stale close only for unusable
        connections (stale:not-closed); grace delay ignored when arming the expiry (expire:closed-before-deadline);
        refresh command does not re-arm (expire:closed-before-deadline:client-extend); subscription grace delay ignored
@@ -86,6 +88,7 @@ with a signature other than the known ones above):
        (dict:never-closed); promotion skipped for long frames (dict:later-frame-raw); duplicate connect command accepted
        (connect-reply-twice).  The push part is exercised by the unchanged tree itself (violations above; gone with the
        candidate repair that holds early pushes until the reply is queued).
+       Codec installed only after the closed re-check (dict:codec-never-closed:close-during-negotiation / -dictionary).
 """
 import json
 import threading
